@@ -349,6 +349,13 @@ func H07c() {
 	st.presentFails = vBool()
 	err := p.handleGossip(context.Background(), conn, &Envelope{Message: &Envelope_Gossip{Gossip: msg}})
 
+	// an XOR field that is not 32 bytes is malformed (F-38: it used to be padded / truncated): the gossip is refused
+	// and changes nothing - a malformed message slows convergence down like a lost one, it never steers it
+	if len(msg.XOR) != hash.SHA256HashSize {
+		vCover("malformed-xor-length")
+		vAssert(err != nil && len(conn.sent) == 0 && st.correct == 0 && st.incorrect == 0, "H07c.malformed_xor_rejected: gossip with an XOR field that is not 32 bytes was acted upon")
+		return
+	}
 	// reference
 	wireXor := hash.FromSlice(msg.XOR)
 	var unknown []hash.SHA256Hash
@@ -695,6 +702,12 @@ func H07f() {
 	cid := vBytes(2)
 	msg := &State{ConversationID: cid, XOR: hRefBytes(hHash(hb), vChoice(4)), LC: vU32()}
 	err := p.handleState(context.Background(), conn, &Envelope{Message: &Envelope_State{State: msg}})
+	if len(msg.XOR) != hash.SHA256HashSize {
+		// malformed XOR field (F-38): refused, not answered
+		vCover("malformed-xor-length")
+		vAssert(err != nil && len(conn.sent) == 0, "H07f.malformed_xor_rejected: State request with an XOR field that is not 32 bytes was answered")
+		return
+	}
 	vAssert(err == nil, "H07f.no_error: handling a State request failed")
 	if hash.FromSlice(msg.XOR) == st.xor {
 		vCover("in-sync")
